@@ -53,8 +53,9 @@ def check_states(run, states):
 
 
 # ----------------------------------------------------------------------------- the setters of ada::url (Model/UrlSetters.lean)
-MODELLED_SETTERS = ("set_username", "set_password", "set_port", "set_hash", "set_search", "set_pathname", "set_protocol")
-BOOL_SETTERS = ("set_username", "set_password", "set_port", "set_pathname", "set_protocol")
+MODELLED_SETTERS = ("set_username", "set_password", "set_port", "set_hash", "set_search", "set_pathname", "set_protocol", "set_host",
+                    "set_hostname")
+BOOL_SETTERS = ("set_username", "set_password", "set_port", "set_pathname", "set_protocol", "set_host", "set_hostname")
 
 
 def fields_line(f):
@@ -63,7 +64,7 @@ def fields_line(f):
             f"{f['port'] if f['port'] is not None else '-'} {hx(f['path'])} {o(f['query'])} {o(f['hash'])} {1 if f['opq'] else 0}")
 
 
-def check_setters(run, res, key="sequrl"):
+def check_setters(run, res, key="sequrl", binp=None):
     """L1 for the setter models of ada::url: every step (state before, setter, value, state after, return value) of the real
     histories is replayed on the Lean model (driver `url.set`); field values after the call and the return value must agree.
     res: output of urlcorr.explore (case = (input, base, ops, limit))."""
@@ -94,6 +95,25 @@ def check_setters(run, res, key="sequrl"):
     if crash:
         run.oblige("corr:Model.UrlSetters (driver)", False, str(crash)[:300])
         return None
+    # host setters: the model's IDNA parameter is answered by the real ada::idna::to_ascii (hints), as for the Spec
+    if binp is not None:
+        import wpt
+        idna_via = wpt.idna_via_harness(binp)
+        hints = {}
+        for _ in range(4):
+            need = sorted({unhx(a.split()[1]) for a in ans if a.startswith("need-idna ")} - set(hints))
+            if not need:
+                break
+            for d, o in zip(need, idna_via(need)):
+                hints[d] = o
+            idx = [i for i, a in enumerate(ans) if a.startswith("need-idna ")]
+            hs = " ".join(f"{hx(k)}={'!' if v is None else hx(v)}" for k, v in hints.items())
+            sub, crash = lib.run_lines(lib.driver_path(), [q[i] + " " + hs for i in idx], timeout=900)
+            if crash:
+                run.oblige("corr:Model.UrlSetters (driver)", False, str(crash)[:300])
+                return None
+            for i, a in zip(idx, sub):
+                ans[i] = a
     bad, per = [], {}
     for line, (op, v, a, rl, i, case), out in zip(q, meta, ans):
         per[op] = per.get(op, 0) + 1
